@@ -1,11 +1,25 @@
 """Growth: the client endpoint's region/session life cycle (ClientSession.tla).
 
-B1: every edge of the bounded model is replayed into a fresh real HippoClient + HippoClientSession +
-HippoClientProtocol (recording transport, scripted HTTP session for the seed capability and the event
-queue long-poll, virtual asyncio clock, virtual `dt` in hippolyzer.lib.base.message.circuit) and the whole
-observation of the last step (datagrams emitted with destination/name/flags in order, the region table
-read through the public lookups, the main region, the `connected` futures, the futures returned by
-connect()/teleport(), seed fetches and event-queue polls) is compared with what TLC printed for that edge.
+B1: every edge of six bounded models (different starting points of a session and different sets of enabled actions, see
+PROFILES) is replayed into a fresh real HippoClient + HippoClientSession + HippoClientProtocol and the whole observation
+of the last step is compared with what TLC printed for that edge:
+  tx        datagrams handed to the transport in this step, in order: [simulator, message name, reliable, resent]
+  http      requests started in this step: [seed | eq, simulator]
+  raised    exception type escaping the call / datagram_received
+  regs      session.regions in order: address, handle, seed capability generation, circuit closed/alive, EventQueueGet cap
+            known, region named by RegionHandshake, state of region.connected
+  main, cmain, byHandle, byAddr   session.main_region, client.main_region, region_by_handle, region_by_circuit_addr
+  calls, tp  the tasks of the connect() calls the driver made, the future returned by teleport()
+  polls, closed   open event-queue polls per simulator, transport.close() calls
+The models are exported and model-checked (INVS, PROPS) in the same TLC runs.
+
+Driver: recording transport; the aiohttp session is replaced by a scripted one (seed capability answered at once, 200 or
+500; event queue polls stay open until the driver delivers an event); asyncio loop with a virtual clock; virtual `dt` in
+hippolyzer.lib.base.message.circuit.  A model Tick is 3 s in six steps of 0.5 s (one round of HippoClient._attempt_resends
+each), so every send and resend happens on a multiple of 3 s and "due" is never a matter of float rounding.  The session is
+built as HippoClient.login(connect=False) leaves it (login itself is out of scope); AUTO_REQUEST_PARCELS / _MATERIALS are
+switched off (documented settings).  Simulators acknowledge by PacketAck, number their packets per address, and start from 1
+again when they are announced while the client holds no live circuit to them (a restarted simulator).
 """
 from __future__ import annotations
 
@@ -78,6 +92,14 @@ class _Resp:
         pass
 
 
+class _Deferred:
+    def __init__(self, make):
+        self._make = make
+
+    def __await__(self):
+        return self._make().__await__()
+
+
 class FakeHttp:
     """Stands in for the aiohttp.ClientSession of the client: answers the seed capability at once, keeps event
     queue polls open until the driver delivers something (a long poll) and records what was asked."""
@@ -89,7 +111,12 @@ class FakeHttp:
         self.seed_ok = True
         self.closed = False
 
-    async def _request(self, method, url, **kw):
+    def _request(self, method, url, **kw):
+        # connect() builds the seed request long before it awaits it (and never awaits it when the handshake does not get
+        # that far): hand out an awaitable that only becomes a coroutine when it is awaited
+        return _Deferred(lambda: self._do_request(method, url))
+
+    async def _do_request(self, method, url):
         from hippolyzer.lib.base import llsd
         kind, a, k = _parse_url(url)
         if kind == "seed":
@@ -346,6 +373,12 @@ class Impl:
             if x:
                 res["raised"] = x
         elif n == "Announce":
+            r = self._region(act["a"])
+            if act["k"] != "EnableSimulator" and (r is None or not r.is_alive):
+                # a simulator that is announced while the client has no live circuit to it may have been restarted: it
+                # numbers its packets from 1 again (open_circuit gives such a region a new Circuit, so nothing it sends
+                # can be mistaken for a retransmission of something seen on the old one)
+                self.sim_pid[act["a"]] = 0
             note = self._eq_event(act["via"], self._announce(act["k"], act["a"], act.get("s", 1)))
         elif n == "TeleportFailed":
             note = self._eq_event(act["via"], self._announce("TeleportFailed", 0, 0))
@@ -443,8 +476,13 @@ CANON = [{"n": "Connect", "a": 1, "main": True}, {"n": "Ack", "a": 1, "m": "UseC
          {"n": "Ack", "a": 1, "m": "RegionHandshakeReply"}, {"n": "Ack", "a": 1, "m": "AgentThrottle"},
          {"n": "Ack", "a": 1, "m": "AgentUpdate"}]
 
-_G = None
-_START = "fresh"
+CANON2 = [{"n": "Announce", "via": 1, "k": "TeleportFinish", "a": 2, "s": 1}, {"n": "Ack", "a": 2, "m": "UseCircuitCode"},
+          {"n": "Ack", "a": 2, "m": "CompleteAgentMovement"}, {"n": "Handshake", "a": 2},
+          {"n": "Ack", "a": 2, "m": "RegionHandshakeReply"}, {"n": "Ack", "a": 2, "m": "AgentThrottle"},
+          {"n": "Ack", "a": 2, "m": "AgentUpdate"}]
+PREFIX = {"fresh": [], "connected": CANON, "both": CANON + CANON2}
+
+_GS = {}          # model name -> (Graph, start); set before forking
 
 
 def _expected(obs):
@@ -468,9 +506,9 @@ def _observed(got):
 
 
 def _replay(items):
-    g = _G
     res = []
-    for item in items:
+    for name, item in items:
+        g, start = _GS[name]
         pre = []
         if isinstance(item, tuple):
             pre, ei = [g.edges[item[0]]], item[1]
@@ -481,11 +519,9 @@ def _replay(items):
         hist = []
         try:
             impl = Impl()
-            if _START == "connected":
-                for a in CANON:
-                    impl.step(a)
-                    hist.append(a)
-                # the user's connect() of the login handshake is call number 1 of the model
+            for a in PREFIX[start]:      # the user's connect() of the login handshake is call number 1 of the model
+                impl.step(a)
+                hist.append(a)
             for pe in g.path_to(pre[0]["_s"] if pre else e["_s"]) + pre:
                 impl.step(pe["act"])
                 hist.append(pe["act"])
@@ -534,8 +570,9 @@ ALL_ACTS = ["connect", "disconnect", "teleport", "logout", "ack", "handshake", "
 PROFILES = [
     ("handshake", "fresh", ["connect", "ack", "handshake", "tick", "expire", "disconnect", "disable", "seedbreaks"], 8, 2, 0),
     ("teleport", "connected", ["teleport", "ack", "handshake", "TeleportFinish", "tick", "expire"], 10, 0, 1),
-    ("neighbours", "connected", ["EstablishAgentCommunication", "CrossedRegion", "TeleportFinish", "connect", "ack", "handshake",
-                                 "disconnect", "disable"], 7, 1, 2),
+    ("neighbours", "connected", ["EstablishAgentCommunication", "CrossedRegion", "TeleportFinish", "ack", "handshake",
+                                 "disconnect", "disable"], 6, 2, 2),
+    ("return", "both", ["TeleportFinish", "ack", "handshake", "disconnect", "disable", "tick"], 7, 2, 2),
     ("all-fresh", "fresh", ALL_ACTS, 5, 2, 2),
     ("all-connected", "connected", ALL_ACTS, 4, 2, 2),
 ]
@@ -563,16 +600,11 @@ def _export(chk: Check, name, start, acts, depth, seeds, max_n, max_calls, max_a
     return res
 
 
-def _replay_graph(g: Graph, start, cap_pairs):
-    global _G, _START
-    _G, _START = g, start
+def _items(g: Graph, cap_pairs):
     ids = g.reachable_edges()
     if len(ids) != len(g.edges):
         raise MachineryError("unreachable edges in the ClientSession export")
-    ids = ids + g.merge_pairs(cap_pairs)
-    n = common.NCPU * 4
-    results = common.parallel_map(_replay, [c for c in (ids[i::n] for i in range(n)) if c])
-    return ids, [b for r in results for b in r]
+    return ids + g.merge_pairs(cap_pairs)
 
 
 def _depth(name, base, deeper):
@@ -585,16 +617,14 @@ def _seeds(name, seeds):
     return max(seeds, 2) if name == "neighbours" else seeds
 
 
-def _check_canon(g: Graph, connected_init):
-    """The "connected" models start where the login handshake of the "fresh" model ends: follow CANON through the fresh graph."""
+def _follow(g: Graph, acts, what):
+    """The models that do not start fresh start where a canonical history of another model ends: follow it through that graph."""
     s = g.inits[0]
-    for act in CANON:
+    for act in acts:
         nxt = [g.edges[i] for i in g.out.get(s, ()) if g.edges[i]["act"] == act]
         if not nxt:
-            raise MachineryError("the login handshake %r is not a path of the fresh ClientSession model" % (act,))
+            raise MachineryError("%s: %r is not a path of the ClientSession model it is taken from" % (what, act))
         s = nxt[0]["_d"]
-    if connected_init is not None and s != connected_init:
-        raise MachineryError("Start = \"connected\" is not the state the login handshake leads to:\n%s\n%s" % (s, connected_init))
     return s
 
 
@@ -634,27 +664,27 @@ def _witnesses(graphs):
                     hit("connect_failed_by_seed")
                 if r["st"] == "upd" and r2 is not None and r2["conn"] == "d":
                     hit("handshake_completed")
+                if r["st"] == "upd" and r2 is not None and r2["st"] == "idle" and r2["conn"] == "x":
+                    hit("handshake_completed_after_teleport_gave_up")
                 if r["st"] in ("ucc", "cam", "rh", "rhr", "thr", "upd") and r2 is None:
                     hit("region_dropped_while_connecting")
                 if r["circ"] == "closed" and r["st"] in ("hung", "stale") and o["ev"] in ("tick", "expire") and not any(t[0] == a for t in o["tx"]):
                     hit("disconnect_then_tick_silent")
             if any(t[3] for t in o["tx"]):
                 hit("resend")
-            if any(c["st"] == "f:InvalidStateError" for c in d["calls"]) and not any(c["st"] == "f:InvalidStateError" for c in s["calls"]):
-                hit("connected_future_cancelled_then_completed")
     return w
 
 
-def section(chk: Check, deeper: int = 0, seeds: int = 1, max_n: int = 1, cap_pairs: int = 600, only=None, bugs=None):
+def section(chk: Check, deeper: int = 0, seeds: int = 1, max_n: int = 1, cap_pairs: int = 500, only=None, bugs=None):
     """deeper: added to the base depth of every bounded model; seeds: seed capability generations a simulator may announce;
     max_n: single clock ticks per outstanding message; cap_pairs: merge pairs replayed per model."""
     _imports()          # before forking: the workers share the imported implementation
     budget = reflect_budget()
     per_action = {}
-    total = 0
-    bads = []
+    work = []
     graphs = []
-    canon_end = None
+    _GS.clear()
+    ends = {}
     profiles = [p for p in PROFILES if not only or p[0] in only]
     import concurrent.futures as cf
     with cf.ThreadPoolExecutor(max_workers=len(profiles)) as ex:        # each export is a JVM subprocess
@@ -666,19 +696,24 @@ def section(chk: Check, deeper: int = 0, seeds: int = 1, max_n: int = 1, cap_pai
         chk.add_tlc(res, "ClientSession %s (%s) d%d s%d n%d (export)" % (name, start, _depth(name, depth, deeper), _seeds(name, seeds), max_n))
         chk.cov["tlc_runs"][-1]["invariants"] = INVS + PROPS
         g = Graph(res.printed())
-        ids, bad = _replay_graph(g, start, cap_pairs)
         if name == "handshake":
-            canon_end = _check_canon(g, None)
-        elif start == "connected" and canon_end is not None and g.inits[0] != canon_end:
-            raise MachineryError("Start = \"connected\" is not the state the login handshake leads to:\n%s\n%s" % (canon_end, g.inits[0]))
+            ends["connected"] = _follow(g, CANON, "login handshake")
+        elif name == "teleport":
+            ends["both"] = _follow(g, CANON2, "teleport handshake")
+        if start in ends and g.inits[0] != ends[start]:
+            raise MachineryError("Start = \"%s\" is not the state its canonical history leads to:\n%s\n%s" % (start, ends[start], g.inits[0]))
         graphs.append((name, g))
-        total += len(ids)
-        bads += bad
+        _GS[name] = (g, start)
+        work += [(name, it) for it in _items(g, cap_pairs)]
         for e in g.edges:
             k = e["act"]["k"] if e["act"]["n"] == "Announce" else e["obs"]["o"]["ev"]
             per_action[k] = per_action.get(k, 0) + 1
             if e["obs"]["o"]["tx"] or e["obs"]["o"]["http"] or e["src"] != e["dst"]:
-                chk.nontrivial(("clientsession", start, e["_s"], common.skey(e["act"])))
+                chk.nontrivial(("clientsession", name, e["_s"], common.skey(e["act"])))
+    n = common.NCPU * 4
+    results = common.parallel_map(_replay, [c for c in (work[i::n] for i in range(n)) if c])
+    bads = [b for r in results for b in r]
+    total = len(work)
     missing = [a for a in ALL_ACTS if not per_action.get(a)] if not only else []
     if missing:
         raise MachineryError("ClientSession: actions that never fire in the bounded models: %s" % missing)
